@@ -498,6 +498,13 @@ impl DbInner {
 		I: IntoIterator<Item = (ColId, Operation<Vec<u8>, Vec<u8>>)>,
 	{
 		let tx: Vec<(ColId, Operation<Vec<u8>, Vec<u8>>)> = tx.into_iter().collect();
+		{
+			// Refuse before tree values are claimed: in the error state nothing may be consumed.
+			let bg_err = self.bg_err.lock();
+			if let Some(err) = &*bg_err {
+				return Err(Error::Background(err.clone()))
+			}
+		}
 		// Validate the whole transaction before anything is claimed, counted or published:
 		// a rejected transaction must leave no trace.
 		for (col, change) in tx.iter() {
